@@ -242,3 +242,517 @@ def replay_c13(ctx, data):
 
 
 REPLAYS['C13'] = replay_c13
+
+
+# =====================================================================================================
+# shared: POS stream (positions with every observable), SPEC answers (rules of chess, independent of the model)
+
+POS_FIELDS = ['status', 'snapshot', 'legal', 'tactical', 'count', 'tcount', 'in_check', 'attack_map', 'eval_full', 'eval_material']
+
+
+def strip_flags(moves):
+    return ' '.join(sorted(re.sub(r'[*]|@..', '', m) for m in moves.split()))
+
+
+def pos_stream(ctx, name, games, synth, templates=1, spec_sample=None):
+    """Runs the POS stream; returns dict with cases (fens), impl/model field lists and spec answers for a sample."""
+    rc, out, err, stats = harness(['pos', name, str(games), str(synth), str(templates)])
+    cases, impl = read_lines(RUN + '/%s.cases' % name), read_lines(RUN + '/%s.impl' % name)
+    model = run_oracle(cases)
+    fens = [c.split('\t', 1)[1] for c in cases]
+    res = {'fens': fens, 'impl': [l.split('|') for l in impl], 'model': [l.split('|') for l in model], 'stats': stats,
+           'impl_raw': impl, 'model_raw': model}
+    if spec_sample is None:
+        spec_sample = len(cases)
+    # originals are at even indices, their mirrors at odd ones; sample originals evenly
+    idx = list(range(0, len(cases), 2))
+    if len(idx) > spec_sample:
+        step = len(idx) / float(spec_sample)
+        idx = [idx[int(k * step)] for k in range(spec_sample)]
+    spec = run_oracle(['SPEC\t' + fens[i] for i in idx])
+    res['spec_idx'] = idx
+    res['spec'] = {i: s.split('|') for i, s in zip(idx, spec)}
+    return res
+
+
+def field_mismatches(ps, fields):
+    """indices where impl and model differ in one of the given fields (or one side panicked / rejected)"""
+    out = []
+    for i, (a, b) in enumerate(zip(ps['impl'], ps['model'])):
+        if a[0] != 'OK' or b[0] != 'OK':
+            if a[0] != b[0]:
+                out.append((i, 'status', a[0][:80], b[0][:80]))
+            continue
+        for f in fields:
+            k = POS_FIELDS.index(f)
+            if a[k] != b[k]:
+                out.append((i, f, a[k], b[k]))
+                break
+    return out
+
+
+def sig(*parts):
+    return hashlib.sha1('|'.join(map(str, parts)).encode()).hexdigest()[:12]
+
+
+def pos_sizes(ctx):
+    return (30, 600, 60) if ctx.quick else (1500, 40000, 4000)       # playout games, synthetic placements, spec sample
+
+
+def shrink_fen(fen, still_fails, budget=60):
+    """delete pieces one at a time while the failure persists (kings stay)"""
+    f = fen.split(' ')
+    rows = f[0].split('/')
+    cells = []
+    for r in rows:
+        row = []
+        for c in r:
+            if c.isdigit():
+                row += ['.'] * int(c)
+            else:
+                row.append(c)
+        cells.append(row)
+
+    def render(cs):
+        out = []
+        for row in cs:
+            s, n = '', 0
+            for c in row:
+                if c == '.':
+                    n += 1
+                else:
+                    if n:
+                        s += str(n)
+                        n = 0
+                    s += c
+            if n:
+                s += str(n)
+            out.append(s)
+        return ' '.join(['/'.join(out)] + f[1:])
+    changed = True
+    while changed and budget > 0:
+        changed = False
+        for r in range(8):
+            for c in range(8):
+                if cells[r][c] in '.kK':
+                    continue
+                budget -= 1
+                if budget <= 0:
+                    break
+                old = cells[r][c]
+                cells[r][c] = '.'
+                cand = render(cells)
+                if still_fails(cand):
+                    changed = True
+                else:
+                    cells[r][c] = old
+    return render(cells)
+
+
+def one_pos(fen):
+    """impl, model and spec answers for a single FEN (used by shrinking and replay)"""
+    open(RUN + '/one.fens', 'w').write(fen + '\n')
+    rc, out, err, _ = harness(['pos1', RUN + '/one.fens'])
+    impl = out.strip().split('\n')[0].split('|') if out.strip() else ['HARNESS-FAILED']
+    model, spec = run_oracle(['POS\t' + fen, 'SPEC\t' + fen], shards=2)
+    return impl, model.split('|'), spec.split('|')
+
+
+# =====================================================================================================
+# C01  legal move generation is exactly the rules
+
+@check('C01', ['C01.v'])
+def c01(ctx):
+    games, synth, nspec = pos_sizes(ctx)
+    ps = pos_stream(ctx, 'p01', games, synth, 1, nspec)
+    n = len(ps['fens'])
+    nontrivial = set()
+    # (1) implementation against the rules of chess (Spec oracle), on the sample
+    for i, sp in ps['spec'].items():
+        a = ps['impl'][i]
+        if a[0] != 'OK' or sp[0] != 'OK':
+            continue
+        if sp[5] != '1':
+            continue            # not a legal position in the sense of the quantifier
+        impl_set = strip_flags(a[2])
+        dup = len(a[2].split()) != len(set(re.sub(r'[*]|@..', '', m) for m in a[2].split()))
+        if len(sp[1].split()) > 0 and ('=' not in sp[1]):
+            nontrivial.add(ps['fens'][i].split(' ')[0])
+        if impl_set != sp[1] or dup:
+            fen = ps['fens'][i]
+
+            def fails(f):
+                im, mo, s = one_pos(f)
+                return im[0] == 'OK' and s[0] == 'OK' and s[5] == '1' and strip_flags(im[2]) != s[1]
+            small = shrink_fen(fen, fails) if impl_set != sp[1] else fen
+            im, mo, s = one_pos(small)
+            ctx.v.violation('legal-set-differs-from-rules', {'fen': small, 'original_fen': fen, 'engine_moves': strip_flags(im[2]) if im[0] == 'OK' else im,
+                            'rules_moves': s[1] if s[0] == 'OK' else s, 'duplicates': dup,
+                            'how': '`position fen %s` then `perft 1`' % small}, signature=sig('c01', small))
+            if len(ctx.v.violations) >= 5:
+                break
+    # (2) model against implementation on everything (the theorems are about the model)
+    mm = field_mismatches(ps, ['snapshot', 'legal'])
+    for (i, f, a, b) in mm[:200]:
+        if ctx.v.violations:
+            break
+        # judge against the rules
+        im, mo, s = one_pos(ps['fens'][i])
+        if im[0] != 'OK':
+            ctx.v.violation('engine-crashes-on-legal-position', {'fen': ps['fens'][i], 'engine': im}, signature=sig('c01', ps['fens'][i]))
+        elif s[0] == 'OK' and s[5] == '1' and strip_flags(im[2]) != s[1]:
+            ctx.v.violation('legal-set-differs-from-rules', {'fen': ps['fens'][i], 'engine_moves': strip_flags(im[2]), 'rules_moves': s[1]},
+                            signature=sig('c01', ps['fens'][i]))
+        else:
+            ctx.corr_broken.append({'fen': ps['fens'][i], 'field': f, 'impl': a[:300], 'model': b[:300]})
+    return {'evaluations': n, 'distinct_nontrivial': len(nontrivial),
+            'rule': 'positions from biased playouts, synthetic placements (up to 15 promoted pieces), castling/en-passant/pin templates and the 135 suite FENs; '
+                    'every position also as its colour mirror; non-trivial = distinct placements judged against the Spec oracle (rules of chess)',
+            'positions_vs_model': n, 'positions_vs_spec': len(ps['spec']), 'model_vs_impl_mismatches': len(mm), 'input_distribution': ps['stats'],
+            'traces_validated_against_impl': n,
+            'samples': [{'fen': ps['fens'][i], 'engine_legal': ps['impl'][i][2] if ps['impl'][i][0] == 'OK' else ps['impl'][i][0]} for i in (0, n // 3, n - 2)]}
+
+
+def replay_pos(ctx, data):
+    d = data['data']
+    fen = d.get('fen')
+    if not fen:
+        print(json.dumps(d, indent=1)[:2000])
+        return True
+    im, mo, s = one_pos(fen)
+    print('fen   :', fen)
+    print('engine:', im[2] if im[0] == 'OK' else im)
+    print('rules :', s[1] if s[0] == 'OK' else s)
+    print('model :', mo[2] if mo[0] == 'OK' else mo)
+    return not (im[0] == 'OK' and s[0] == 'OK' and strip_flags(im[2]) == s[1] and im[1:] == mo[1:])
+
+
+REPLAYS['C01'] = replay_pos
+
+
+def canon_model(l):
+    return 'REJ' if l.startswith('REJ') else l
+
+
+def line_stream(ctx, cmd, name, args):
+    """generic: run a harness stream, the oracle on its cases; returns cases, impl, model(canonical), notes, stats"""
+    rc, out, err, stats = harness([cmd, name] + [str(a) for a in args])
+    if rc != 0:
+        log('harness %s failed rc=%s: %s' % (cmd, rc, err[-500:]))
+    cases, impl = read_lines(RUN + '/%s.cases' % name), read_lines(RUN + '/%s.impl' % name)
+    notes = [l.split('\t', 2) for l in read_lines(RUN + '/%s.notes' % name)]
+    model_raw = run_oracle(cases)
+    return cases, impl, [canon_model(m) for m in model_raw], model_raw, notes, stats
+
+
+def unhex(h):
+    return bytes.fromhex(h).decode('latin-1')
+
+
+# =====================================================================================================
+# C02  playing moves keeps the position exact and consistent
+
+def first_diff_ply(a, b):
+    pa, pb = a.split('|'), b.split('|')
+    for k in range(1, min(len(pa), len(pb))):
+        if pa[k] != pb[k]:
+            return k - 1, pa[k], pb[k]
+    return min(len(pa), len(pb)) - 1, pa[-1][:60], pb[-1][:60]
+
+
+@check('C02', ['C02.v'])
+def c02(ctx):
+    games, plies = (300, 160) if ctx.quick else (12000, 200)
+    cases, impl, model, model_raw, notes, stats = line_stream(ctx, 'game', 'g02', [games, plies])
+    nviol = 0
+    # implementation-only observations: bookkeeping vs board, unmake, push vs apply
+    for ln, kind, text in notes:
+        if kind in ('bookkeeping', 'unmake', 'push-vs-apply', 'push-missing'):
+            c = cases[int(ln) - 1].split('\t')
+            ctx.v.violation(kind, {'start': c[1], 'moves': c[2] if len(c) > 2 else '', 'observation': text,
+                            'how': '`position %s moves ...` then compare `tostr` / snapshot accessor' % c[1]}, signature=sig('c02', kind, text[:80]))
+            nviol += 1
+            if nviol >= 5:
+                break
+    game_idx = [i for i, c in enumerate(cases) if c.startswith('GAME')]
+    mism = [i for i in game_idx if impl[i] != model[i].replace('|NOTWF', '')]
+    notwf = [i for i in game_idx if model_raw[i].endswith('NOTWF')]
+    for i in mism[:20]:
+        c = cases[i].split('\t')
+        ply, a, b = first_diff_ply(impl[i], model[i])
+        moves = c[2].split()[:ply]
+        # the model is (by the theorems / the Spec cross-check of C01's stream) the rules' position: judge the engine against it
+        ctx.v.violation('position-after-moves-differs', {'start': c[1], 'moves': ' '.join(moves), 'ply': ply, 'engine_snapshot': a, 'model_snapshot': b,
+                        'how': '`position %s moves %s` then `tostr`' % (c[1], ' '.join(moves))}, signature=sig('c02', c[1], ' '.join(moves)))
+    for i in notwf[:5]:
+        ctx.corr_broken.append({'case': cases[i][:300], 'note': 'model position violates its own well-formedness invariant'})
+    nontriv = sum(int(stats.get(k, 0)) for k in ('castles', 'ep_captures', 'promotions', 'corner_captures'))
+    return {'evaluations': int(stats.get('plies', 0)), 'distinct_nontrivial': nontriv,
+            'rule': 'games from the biased playout generator (start position and corpus FENs, every tenth game up to 400 plies); snapshot (board bytes, '
+                    'lists in order, kings, flags, ep, ply) after every ply compared with the model; on the engine alone: PushMove vs ApplyUciMove, '
+                    'pop restores the previous snapshot, strict list<->board bijection; non-trivial = plies that castle, capture en passant, promote or capture on a corner',
+            'input_distribution': stats, 'games': len(game_idx), 'model_vs_impl_mismatches': len(mism), 'traces_validated_against_impl': len(game_idx),
+            'samples': [{'case': cases[game_idx[0]][:200]}] if game_idx else []}
+
+
+def replay_game(ctx, data):
+    d = data['data']
+    start, moves = d.get('start'), d.get('moves', '')
+    if start is None:
+        print(json.dumps(d, indent=1)[:1500])
+        return True
+    open(RUN + '/one.game', 'w').write('%s\t%s\n' % (start, moves))
+    rc, out, err, _ = harness(['game1', RUN + '/one.game'])
+    model = run_oracle(['GAME\t%s\t%s' % (start, moves)])[0]
+    impl = out.strip().split('\n')[0] if out.strip() else 'HARNESS-FAILED ' + err[-300:]
+    print('engine:', impl[-400:])
+    print('model :', model[-400:])
+    return impl != model.replace('|NOTWF', '')
+
+
+REPLAYS['C02'] = replay_game
+
+# =====================================================================================================
+# C06  tactical list and perft/tperft counts
+
+
+@check('C06', ['C06.v'])
+def c06(ctx):
+    games, synth, nspec = pos_sizes(ctx)
+    ps = pos_stream(ctx, 'p06', games, synth, 1, nspec)
+    n = len(ps['fens'])
+    nontrivial = set()
+    for i, sp in ps['spec'].items():
+        a = ps['impl'][i]
+        if a[0] != 'OK' or sp[0] != 'OK' or sp[5] != '1':
+            continue
+        fen = ps['fens'][i]
+        tact = strip_flags(a[3])
+        legal_n = len(a[2].split())
+        tact_n = len(a[3].split())
+        if tact_n:
+            nontrivial.add(fen.split(' ')[0])
+        bad = None
+        if tact != sp[2]:
+            bad = ('tactical-list-differs-from-rules', {'engine_tactical': tact, 'rules_tactical': sp[2]})
+        elif int(a[4]) != len(sp[1].split()):
+            bad = ('countMoves-differs', {'engine_count': int(a[4]), 'rules_legal_moves': len(sp[1].split())})
+        elif int(a[5]) != len(sp[2].split()):
+            bad = ('countTacticalMoves-differs', {'engine_count': int(a[5]), 'rules_tactical_moves': len(sp[2].split())})
+        elif legal_n != int(a[4]) or tact_n != int(a[5]):
+            bad = ('generator-and-counter-disagree', {'generated': legal_n, 'counted': int(a[4]), 'generated_tactical': tact_n, 'counted_tactical': int(a[5])})
+        # flags: a generated legal move is marked tactical iff it is in the rules' tactical set
+        else:
+            flagged = ' '.join(sorted(re.sub(r'[*]|@..', '', m) for m in a[2].split() if '*' in m))
+            if flagged != sp[2]:
+                bad = ('tactical-flag-wrong', {'flagged': flagged, 'rules_tactical': sp[2]})
+        if bad:
+            d = {'fen': fen, 'how': '`position fen %s`, `perft 1` / `tperft 1`' % fen}
+            d.update(bad[1])
+            ctx.v.violation(bad[0], d, signature=sig('c06', bad[0], fen))
+            if len(ctx.v.violations) >= 5:
+                break
+    mm = field_mismatches(ps, ['tactical', 'count', 'tcount', 'legal'])
+    # perft / tperft through the command interpreter against the model (model = Spec.paths by theorem; and see C01)
+    npf, dfull, dsparse = (120, 2, 3) if ctx.quick else (3000, 3, 4)
+    cases, impl, model, model_raw, notes, stats = line_stream(ctx, 'perft', 'pf06', [npf, dfull, dsparse])
+    pm = [i for i in range(len(cases)) if impl[i] != model[i]]
+    for i in pm[:10]:
+        c = cases[i].split('\t')
+        cmd = 'perft' if c[0] == 'PERFT' else 'tperft'
+        ctx.v.violation('perft-count-differs', {'fen': c[1], 'command': '%s %s' % (cmd, c[2]), 'engine': impl[i][:600], 'model': model[i][:600],
+                        'how': '`position fen %s`, `%s %s`' % (c[1], cmd, c[2])}, signature=sig('c06', cmd, c[1], c[2]))
+    for (i, f, a, b) in mm[:20]:
+        if not ctx.v.violations:
+            ctx.corr_broken.append({'fen': ps['fens'][i], 'field': f, 'impl': a[:200], 'model': b[:200]})
+    return {'evaluations': n + len(cases), 'distinct_nontrivial': len(nontrivial),
+            'rule': 'POS stream (see C01): tactical list, both fast counters, tactical flags against the Spec oracle and the model; perft/tperft divide output of the '
+                    'real commands to depth 2-3 (quick) / 3-4 (thorough) against the model; non-trivial = distinct placements with at least one tactical move',
+            'positions': n, 'perft_commands': len(cases), 'model_vs_impl_mismatches': len(mm) + len(pm), 'input_distribution': ps['stats'],
+            'traces_validated_against_impl': n + len(cases),
+            'samples': [{'case': cases[k], 'engine': impl[k][:200]} for k in (0, len(cases) // 2)] if cases else []}
+
+
+REPLAYS['C06'] = replay_pos
+
+# =====================================================================================================
+# C07  position command replays games; move notation round-trips
+
+
+@check('C07', ['C07.v'])
+def c07(ctx):
+    games, plies = (200, 160) if ctx.quick else (8000, 200)
+    cases, impl, model, model_raw, notes, stats = line_stream(ctx, 'game', 'g07', [games, plies])
+    for ln, kind, text in notes:
+        if kind == 'position-command':
+            ctx.v.violation('position-command-differs-from-playing-the-moves', {'observation': text[:1500]}, signature=sig('c07', text[:120]))
+            if len(ctx.v.violations) >= 5:
+                break
+    idx = [i for i, c in enumerate(cases) if c.startswith('POSCMD')]
+    mism = [i for i in idx if impl[i] != model[i]]
+    for i in mism[:10]:
+        cmd = unhex(cases[i].split('\t')[1])
+        ctx.v.violation('position-command-result-differs', {'command': 'position ' + cmd, 'engine': impl[i][:500], 'model': model[i][:500]},
+                        signature=sig('c07', cmd[:200]))
+    # move notation: every one of the 64*64*5 strings through the engine's own printer and parser
+    rc, out, err, st2 = harness(['moves', 'm07'])
+    mcases, mimpl = read_lines(RUN + '/m07.cases'), read_lines(RUN + '/m07.impl')
+    mnotes = read_lines(RUN + '/m07.notes')
+    for l in mnotes[:5]:
+        ctx.v.violation('move-text-does-not-round-trip', {'observation': l}, signature=sig('c07', l[:80]))
+    mmodel = run_oracle(mcases)
+    mm = [i for i in range(len(mcases)) if mimpl[i] != mmodel[i]]
+    for i in mm[:5]:
+        if not ctx.v.violations:
+            ctx.corr_broken.append({'case': unhex(mcases[i].split('\t')[1]), 'impl': mimpl[i], 'model': mmodel[i]})
+    forms = {}
+    for i in idx:
+        c = unhex(cases[i].split('\t')[1])
+        k = 'startpos' if c.startswith('startpos') else ('fen-keyword' if c.startswith('fen') else 'bare-fen')
+        forms[k] = forms.get(k, 0) + 1
+    return {'evaluations': len(idx) + len(mcases), 'distinct_nontrivial': len(set(cases[i] for i in idx)),
+            'rule': '`position` commands (startpos / bare FEN / fen keyword, whole games and random prefixes, promotion suffix in either case) executed by ParseInputLine, '
+                    'result compared with playing the moves one by one and with the model; plus all 64x64x5 move strings (and upper-case / junk variants) through the '
+                    "engine's printer and parser against the model; non-trivial = distinct position commands",
+            'exhaustive': True, 'position_commands': len(idx), 'forms': forms, 'move_strings': len(mcases), 'model_vs_impl_mismatches': len(mism) + len(mm),
+            'input_distribution': stats, 'traces_validated_against_impl': len(idx) + len(mcases),
+            'samples': [{'command': 'position ' + unhex(cases[i].split('\t')[1])[:200]} for i in idx[:2]]}
+
+
+# =====================================================================================================
+# C08  FEN loading faithful and total
+
+
+@check('C08', ['C08.v'])
+def c08(ctx):
+    n = 5000 if ctx.quick else 400000
+    cases, impl, model, model_raw, notes, stats = line_stream(ctx, 'fen', 'f08', [n])
+    mism = [i for i in range(len(cases)) if impl[i] != model[i]]
+    kinds = {}
+    for m in model_raw:
+        k = m.split('|')[0]
+        kinds[k] = kinds.get(k, 0) + 1
+    for i in mism[:200]:
+        s = unhex(cases[i].split('\t')[1])
+        a, b = impl[i], model[i]
+        if a.startswith('PANIC'):
+            ctx.v.violation('fen-crashes-the-loader', {'fen': s, 'fen_hex': cases[i].split('\t')[1], 'engine': a}, signature=sig('c08', s))
+        elif a.startswith('OK') and b == 'REJ':
+            ctx.v.violation('unsound-fen-accepted', {'fen': s, 'fen_hex': cases[i].split('\t')[1], 'model_rejects_with_code': model_raw[i],
+                            'engine_snapshot': a[:400]}, signature=sig('c08', s))
+        elif a == 'REJ' and b.startswith('OK'):
+            ctx.v.violation('valid-fen-rejected', {'fen': s, 'fen_hex': cases[i].split('\t')[1], 'model_snapshot': b[:400]}, signature=sig('c08', s))
+        else:
+            ctx.v.violation('fen-loaded-with-different-meaning', {'fen': s, 'engine': a[:500], 'model': b[:500]}, signature=sig('c08', s))
+        if len(ctx.v.violations) >= 5:
+            break
+    # rejection keeps the current position: through the command interpreter
+    rc, out, err, st2 = harness(['fenkeep', 'fk08', str(300 if ctx.quick else 20000)])
+    for l in read_lines(RUN + '/fk08.notes')[:5]:
+        ctx.v.violation('rejected-fen-changed-the-position', {'observation': l[:1500]}, signature=sig('c08k', l[:100]))
+    acc = sum(1 for x in impl if x.startswith('OK'))
+    return {'evaluations': len(cases) + int(st2.get('total', 0)), 'distinct_nontrivial': len(set(cases)),
+            'rule': 'strings: valid FENs of playout/corpus/suite positions, all field variants, capacity and counter boundaries, one- and two-step mutations, random '
+                    'ASCII and non-ASCII bytes; observable = accepted (with full snapshot) or rejected, never a panic; model = Fen.v; non-trivial = distinct strings',
+            'accepted': acc, 'rejected': len(cases) - acc, 'model_outcome_kinds': kinds, 'model_vs_impl_mismatches': len(mism),
+            'input_distribution': stats, 'traces_validated_against_impl': len(cases),
+            'samples': [{'fen': unhex(cases[i].split('\t')[1]), 'engine': impl[i][:80]} for i in (0, len(cases) // 2, len(cases) - 1)]}
+
+
+# =====================================================================================================
+# C09  attack / check detection = geometry
+
+
+@check('C09', ['C09.v'])
+def c09(ctx):
+    games, synth, nspec = pos_sizes(ctx)
+    ps = pos_stream(ctx, 'p09', games, synth, 1, nspec * 2)
+    n = len(ps['fens'])
+    nontrivial = set()
+    for i, sp in ps['spec'].items():
+        a = ps['impl'][i]
+        if a[0] != 'OK' or sp[0] != 'OK':
+            continue
+        fen = ps['fens'][i]
+        nontrivial.add(a[7])
+        if a[7] != sp[4] or a[6] != sp[3]:
+            ctx.v.violation('square-attacked-differs-from-geometry', {'fen': fen, 'engine_attack_map': a[7], 'rules_attack_map': sp[4],
+                            'engine_in_check': a[6], 'rules_in_check': sp[3],
+                            'map_format': '32 hex digits: 64 bits squares a1..h8 attacked by white, then by black'}, signature=sig('c09', fen))
+            if len(ctx.v.violations) >= 5:
+                break
+    mm = field_mismatches(ps, ['in_check', 'attack_map'])
+    # the quantifier's own enumeration: one attacker, optional single blocker, every pair of squares
+    mode = 'sample' if ctx.quick else 'full'
+    rc, out, err, st2 = harness(['attack', 'a09', mode], timeout=3000)
+    acases, aimpl = read_lines(RUN + '/a09.cases'), read_lines(RUN + '/a09.impl')
+    amodel = run_oracle(acases)
+    am = [i for i in range(len(acases)) if aimpl[i] != amodel[i]]
+    for i in am[:5]:
+        ctx.v.violation('single-attacker-differs-from-geometry', {'case': acases[i], 'engine': aimpl[i], 'rules_and_model': amodel[i],
+                        'case_format': 'ATT <attacker piece byte> <from> <to> <blocker or -1> <parked king square> (0x88 squares)'},
+                        signature=sig('c09a', acases[i]))
+    for (i, f, a, b) in mm[:20]:
+        if not ctx.v.violations:
+            ctx.corr_broken.append({'fen': ps['fens'][i], 'field': f, 'impl': a, 'model': b})
+    return {'evaluations': n * 128 + len(acases), 'distinct_nontrivial': len(nontrivial),
+            'rule': 'POS stream: for every position the 64x2 square-attacked map and in-check flag against the Spec oracle (rules) and the model; plus the '
+                    "quantifier's enumeration (10 attacker kinds x from x to x {no blocker | one blocker}) through the hook: %s; non-trivial = distinct attack maps" % mode,
+            'exhaustive': mode == 'full', 'positions': n, 'single_attacker_cases': len(acases), 'model_vs_impl_mismatches': len(mm) + len(am),
+            'input_distribution': ps['stats'], 'traces_validated_against_impl': n + len(acases),
+            'samples': [{'fen': ps['fens'][0], 'attack_map': ps['impl'][0][7]}] + ([{'case': acases[0], 'engine': aimpl[0]}] if acases else [])}
+
+
+REPLAYS['C09'] = replay_pos
+
+# =====================================================================================================
+# C15  evaluation is colour-symmetric
+
+
+@check('C15', ['C15.v'])
+def c15(ctx):
+    games, synth, nspec = pos_sizes(ctx)
+    ps = pos_stream(ctx, 'p15', games * 2, synth * 2, 1, 0)
+    n = len(ps['fens'])
+    nontrivial = set()
+    cats = {'ep': 0, 'castle': 0, 'in_check': 0, 'heavy': 0}
+    for i in range(0, n - 1, 2):
+        a, m = ps['impl'][i], ps['impl'][i + 1]
+        if a[0] != 'OK' or m[0] != 'OK':
+            if a[0] != m[0]:
+                ctx.v.violation('mirror-image-treated-differently', {'fen': ps['fens'][i], 'mirror_fen': ps['fens'][i + 1], 'engine': a[0][:100], 'engine_on_mirror': m[0][:100]},
+                                signature=sig('c15', ps['fens'][i]))
+            continue
+        f = ps['fens'][i].split(' ')
+        nontrivial.add(f[0])
+        cats['ep'] += f[3] != '-'
+        cats['castle'] += f[2] != '-'
+        cats['in_check'] += a[6] == '1'
+        cats['heavy'] += sum(c in 'qQ' for c in f[0]) > 3
+        if a[8] != m[8] or a[9] != m[9]:
+            fen = ps['fens'][i]
+
+            def fails(ff):
+                im, _, _ = one_pos(ff)
+                open(RUN + '/one.fens', 'w').write(ff + '\n')
+                rc, out, err, _ = harness(['pos1m', RUN + '/one.fens'])
+                im2 = out.strip().split('|') if out.strip() else ['X']
+                return im[0] == 'OK' and im2[0] == 'OK' and (im[8] != im2[8] or im[9] != im2[9])
+            small = shrink_fen(fen, fails)
+            ctx.v.violation('evaluation-not-colour-symmetric', {'fen': small, 'original_fen': fen, 'mirror_of_original': ps['fens'][i + 1],
+                            'eval': int(a[8]), 'eval_of_mirror': int(m[8]), 'material_part': int(a[9]), 'material_part_of_mirror': int(m[9]),
+                            'how': '`position fen <fen>`, `eval` on both'}, signature=sig('c15', small))
+            if len(ctx.v.violations) >= 5:
+                break
+    mm = field_mismatches(ps, ['eval_full', 'eval_material'])
+    for (i, f, a, b) in mm[:20]:
+        if not ctx.v.violations:
+            ctx.corr_broken.append({'fen': ps['fens'][i], 'field': f, 'impl': a, 'model': b})
+    return {'evaluations': n, 'distinct_nontrivial': len(nontrivial),
+            'rule': 'POS stream, every position together with its colour-flipped mirror (ranks reversed, colours, side, castling and ep swapped): Evaluate and its '
+                    'material/PST part must be equal on the pair (engine vs engine) and equal to the model; non-trivial = distinct placements',
+            'pairs': n // 2, 'categories': cats, 'model_vs_impl_mismatches': len(mm), 'input_distribution': ps['stats'], 'traces_validated_against_impl': n,
+            'samples': [{'fen': ps['fens'][i], 'mirror': ps['fens'][i + 1], 'eval': ps['impl'][i][8], 'eval_mirror': ps['impl'][i + 1][8]} for i in (0, (n // 4) * 2)]}
+
+
+REPLAYS['C15'] = replay_pos
